@@ -77,7 +77,18 @@ static void handler(void *c)
 	r->handler_begin = ++seq;
 	sx_assert(r->handled <= r->posts, "C08.more-handler-runs-than-posts");
 	sx_cover("event.handler-ran");
-	if (P_owner_acts && owner_ops > 0) {
+	if (P_owner_acts == 2 && owner_ops > 0 && sx_choose(2)) {
+		/* C01: unregister (and free) this event or a sibling from inside the handler; a
+		 * sibling may already be collected for dispatch in the same run of pending events */
+		struct erec *v = (nE > 1 && sx_choose(2)) ? &E[(r->id + 1) % nE] : r;
+		owner_ops--;
+		if (v->registered) {
+			sx_cover(v == r ? "event.unregister-self-in-handler" : "event.unregister-sibling-in-handler");
+			ev_unregister(v);
+		}
+		return;
+	}
+	if (P_owner_acts == 1 && owner_ops > 0) {
 		/* owner-side activity from inside a handler */
 		a = sx_choose(4);
 		if (a)
@@ -128,6 +139,8 @@ void sx_on_quiescent(void)
 	for (i = 0; i < MAXE; i++) {
 		if (!E[i].registered)
 			continue;
+		if (P_owner_acts == 2)
+			continue;	/* posts to events that were being unregistered are not tracked */
 		/* every post is followed by a handler run that began after the post began */
 		sx_assert(E[i].post_begin == 0 || E[i].handler_begin > E[i].post_begin,
 			  "C08.undelivered-post-owner-asleep");
@@ -199,7 +212,18 @@ void sx_main(void)
 	if (sx_opt("selfpost", 0)) {
 		sx_cover("event.owner-posts-before-main");
 		post(&E[0]);
+		if (P_owner_acts == 2)
+			for (i = 1; i < nE; i++)
+				post(&E[i]);	/* all collected for the same dispatch run */
 	}
 	iv_main();
+	if (P_owner_acts == 2) {
+		/* the handlers unregistered every event: the loop is right to return */
+		for (i = 0; i < MAXE; i++)
+			sx_assert(!E[i].registered, "C07.iv_main-returned-with-events-registered");
+		iv_deinit();
+		sx_leak_check(0);
+		sx_end();
+	}
 	sx_fail("C07.iv_main-returned-with-events-registered");
 }
